@@ -535,6 +535,76 @@ class SecondAnonymizer(Part):
         return res
 
 
+class PrivateOptionSpellings(Part):
+    name = "ways_of_giving_preserve_private_addresses"
+    desc = "--preserve-private-addresses on the command line and in a config file in every affirmative spelling (bare, true, yes, on, 1, any case): either the run is refused or the private blocks are verbatim"
+
+    WAYS = [("cli", None), ("cfg", "preserve-private-addresses"), ("cfg", "preserve-private-addresses = true"),
+            ("cfg", "preserve-private-addresses=True"), ("cfg", "preserve-private-addresses: yes"),
+            ("cfg", "preserve-private-addresses = YES"), ("cfg", "preserve-private-addresses = on"),
+            ("cfg", "preserve-private-addresses=On"), ("cfg", "preserve-private-addresses = ON"),
+            ("cfg", "preserve-private-addresses = 1"), ("cli-equals", "true"), ("cli-equals", "on")]
+
+    def __init__(self, tier, seed):
+        self.tier, self.seed = tier, seed
+
+    def cases(self):
+        return [{"way": i, "B": B} for i in range(len(self.WAYS)) for B in (0, 8)]
+
+    def run(self, cfg):
+        from netconan.netconan import main
+
+        res = Res()
+        kind, text = self.WAYS[cfg["way"]]
+        priv = [ipaddress.ip_network(n) for n in ("10.0.0.0/8", "172.16.0.0/12", "192.168.0.0/16")]
+        addrs = []
+        for n in priv:
+            lo, hi = int(n.network_address), int(n.broadcast_address)
+            addrs += [lo, hi, lo + 1, (lo + hi) // 2]
+        addrs += [int(ipaddress.IPv4Address(x)) for x in ("10.1.2.3", "192.168.1.77", "172.20.9.5", "11.1.2.3", "8.8.4.4")]
+        root = seams.scratch_dir("c05w")
+        try:
+            seams.write_tree(os.path.join(root, "in"), {"a.cfg": "".join("h %s e\n" % refs.v4_text(a) for a in addrs)})
+            argv = ["-a", "-s", "saltForTest", "--preserve-host-bits", str(cfg["B"]), "-i", os.path.join(root, "in"),
+                    "-o", os.path.join(root, "out")]
+            if kind == "cli":
+                argv.append("--preserve-private-addresses")
+            elif kind == "cli-equals":
+                argv.append("--preserve-private-addresses=" + text)
+            else:
+                with open(os.path.join(root, "n.cfg"), "w") as f:
+                    f.write(text + "\n")
+                argv += ["-c", os.path.join(root, "n.cfg")]
+            status = "ok"
+            with seams.capture_logs(), seams.capture_stdio():
+                try:
+                    main(argv)
+                except SystemExit as e:
+                    status = "ok" if e.code in (0, None) else "refused"
+                except Exception as e:
+                    status = "refused:" + type(e).__name__
+            out = seams.read_tree(os.path.join(root, "out")).get("a.cfg") if os.path.isdir(os.path.join(root, "out")) else None
+        finally:
+            shutil.rmtree(root, ignore_errors=True)
+        res.evals += 1
+        res.out((kind, text, status, out is not None))
+        if status != "ok":
+            res.count("spelling_refused_by_parser")
+            if out is not None:
+                res.violation("output-written-although-refused|" + kind, "argv %r text %r" % (argv[9:], text), cfg)
+            return res
+        res.nt((kind, text, cfg["B"]))
+        got = (out or b"").decode().splitlines()
+        for a, ln in zip(addrs, got):
+            t = refs.v4_text(a)
+            if refs.in_any(a, priv) and ln.split()[1] != t:
+                res.violation("private-address-rewritten|%s" % kind,
+                              "option given as %s %r: %s -> %s" % (kind, text, t, ln.split()[1]), cfg)
+                break
+        res.samples.append({"way": [kind, text], "B": cfg["B"], "status": status})
+        return res
+
+
 def parts(tier, seed):
     return [MaskPart(tier, seed), NetworkPart(tier, seed), LazyPart(tier, seed), PrivatePart(tier, seed),
-            LongHistory(tier, seed), SecondAnonymizer(tier, seed)]
+            LongHistory(tier, seed), SecondAnonymizer(tier, seed), PrivateOptionSpellings(tier, seed)]
